@@ -321,10 +321,11 @@ func Serve(s *Sched, h http.Handler, c2s *Conn, d *Delivery, f Faults, rng *rand
 		io.Copy(io.Discard, req.Body)
 		req.Body.Close()
 	}
+	d.HeaderWrites = rw.HeaderWrites
 	if !rw.Wrote {
-		rw.Wrote, rw.Status, rw.snap = true, 200, rw.hdr.Clone()
+		rw.Wrote, rw.Status, rw.snap = true, 200, rw.hdr.Clone() // net/http's implicit 200
 	}
-	d.Superfluous, d.HeaderWrites, d.Status, d.WriteErrs = rw.Superfluous, rw.HeaderWrites, rw.Status, rw.WriteErrs
+	d.Superfluous, d.Status, d.WriteErrs = rw.Superfluous, rw.Status, rw.WriteErrs
 	body := rw.Body.Bytes()
 	resp := &http.Response{StatusCode: rw.Status, ProtoMajor: 1, ProtoMinor: 1, Header: rw.snap, Request: req,
 		Body: io.NopCloser(bytes.NewReader(body)), ContentLength: int64(len(body))}
